@@ -18,32 +18,34 @@ DESIGN_REF = "§5 C10, §6 F3"
 TECHNIQUE = ("Coq proof over byte-level validating-parser models (Ok | Err | Panic) of the table index/footer reader, the journal record "
              "scanner and the manifest parser, for every byte string; refutations by vm_compute witnesses replayed on the real readers; "
              "in-Coq correspondence on corrupted files written by the real writers (child process per worker: goroutine panics are observed)")
-LEVEL_TEXT = ("Proof (F/M for manifest parser panic characterisation, journal scan and table lookups under the stated guards; REFUTED today for the "
-              "unguarded table index, a CRC-valid malformed journal record and a malformed manifest root hash): models mirror every bounds check "
-              "the Go code performs and none it does not (incl. Go's capacity rule for re-slicing).")
+LEVEL_TEXT = ("Proof (F/M): for every byte string the models of the table footer/index reader (open, has, get, getMany, iterateAllChunks), of the "
+              "journal record scanner incl. the data-loss resynchronisation, and of the manifest parser never panic (unconditional; the models mirror "
+              "every bounds check the repaired Go code performs and none it does not, incl. Go's capacity rule for re-slicing); a successful get returns "
+              "exactly the checksummed record the index designates for the address. REFUTED and kept as open known findings: content is never compared "
+              "with the address (records exchanged under valid checksums; iteration labels chunks with the unchecksummed index's address). hashAt remains unguarded.")
 LEVEL_NOTE = ("Trusted: Coq kernel, translator constants, Go harness + Python glue. Modelled, not verified: snappy decode (opaque after the checksum), "
-              "hash.Of (the harness reports content-hash = address), errgroup batch interleaving of getMany (crash / no crash / either), os.File.ReadAt "
-              "short-read semantics, bufio.Peek buffer capacity. Archives are not modelled (see report).")
-THEOREMS = ["no_panic_open_table", "no_panic_table_guarded", "no_panic_table_refuted", "no_misread_get", "no_misread_refuted",
-            "no_panic_journal_scan_wf", "no_panic_journal_refuted", "manifest_panic_only_root", "no_panic_manifest_refuted"]
-REFUTED = ["no_panic_table_refuted", "no_misread_refuted", "no_panic_journal_refuted", "no_panic_manifest_refuted"]
+              "hash.Of (the harness reports content-hash = address), errgroup goroutines of getMany (model: lookup phase + the argument that batch buffers cover "
+              "their members), os.File.ReadAt short-read semantics. Archives and store-level opens are not modelled (see report).")
+THEOREMS = ["no_panic_open_table", "no_panic_table", "no_panic_journal_scan", "no_panic_manifest", "oracle_model", "no_misread_get",
+            "no_misread_refuted", "iterate_mislabel_refuted", "hash_at_refuted"]
+REFUTED = ["no_misread_refuted", "iterate_mislabel_refuted", "hash_at_refuted"]
 RULE = ("files written by the real writers (table files of 1-6 chunks, journals of 2-7 records, v5/v4 manifests of 0-3 specs) with: every single-byte "
         "corruption of index+footer (thorough: 3 values per position; quick: one rotating value), sampled data-area flips, every/sampled truncation, "
         "field-targeted edits (counts, lengths, ordinals, prefixes, magic), record swaps with valid checksums, appended tails, manifest count disagreement; "
         "non-trivial = the mutated file differs from the pristine one or is the pristine control; distinct by mutation list + base")
-ASSUMPTIONS = ["table files in generated cases hold at most 12 chunks (sort.Slice is then a stable insertion sort, as modelled)",
+ASSUMPTIONS = ["generated length entries stay <= 144 MiB (one 4 GiB probe in the thorough tier): the readers allocate the declared length before reading, which is slow but neither a crash nor a misread",
+               "table files in generated cases hold at most 12 chunks (sort.Slice is then a stable insertion sort, as modelled)",
                "a span whose CRC32C validates snappy-decodes (model answers 'ok' where the implementation may answer a snappy error)",
                "journal inputs are shorter than the 10 MiB resynchronisation buffer of possibleDataLossCheck"]
-REQUIRED_TAGS = ["table", "journal", "manifest", "t-pristine", "t-open-err", "t-get-err", "t-get-panic", "t-has-panic", "t-iter-panic", "t-gm-crash", "t-iter-mislabel",
-                 "t-absent", "t-misread", "j-ok", "j-panic", "j-dataloss", "j-truncated", "m-ok", "m-err", "m-panic"]
+REQUIRED_TAGS = ["table", "journal", "manifest", "t-pristine", "t-open-err", "t-get-err", "t-has-err", "t-iter-err", "t-gm-err", "t-iter-mislabel",
+                 "t-absent", "t-misread", "j-ok", "j-err", "j-dataloss", "j-truncated", "m-ok", "m-err",
+                 "reg:length-lt-checksum-size", "reg:ordinal-ge-count", "reg:length-gt-iterate-buffer", "reg:journal-short-field", "reg:manifest-bad-root"]
 
-KEY_LEN = "table-index:length-lt-checksum-size"
-KEY_ORD = "table-index:ordinal-ge-count"
-KEY_BUF = "table-index:length-gt-iterate-buffer"
+# open known findings (reads never compare the content hash with the address).  The repaired findings
+# (table-index:length-lt-checksum-size, table-index:ordinal-ge-count, table-index:length-gt-iterate-buffer,
+#  journal-record:short-field-valid-crc, manifest:root-hash-malformed) are NOT matched any more: a panic is a violation.
 KEY_SWAP = "table-file:record-replaced-valid-crc"
 KEY_ITER = "table-index:iterate-address-from-corrupt-index"
-KEY_JREC = "journal-record:short-field-valid-crc"
-KEY_MROOT = "manifest:root-hash-malformed"
 
 
 # ----------------------------------------------------------------------------------------------
@@ -85,6 +87,16 @@ def table_cases(rng, tier):
             if quick and p % 2 != phase and p > 20:
                 continue                      # quick: every footer byte, every second index byte (offset drawn from the seed)
             vals = [FLIPS[p % 3]] if quick else FLIPS
+            lpos = isz - p - 12 * c            # offset inside the lengths region, if any
+            if 0 <= lpos < 4 * c and lpos % 4 == 0:
+                # most significant byte of a length entry: the reader allocates the declared length before it reads
+                # (make([]byte, length) in get, the grown scratch buffer in iterateAllChunks): 2-4 GiB per lookup, ~30 s a case.
+                # Not a crash and not this property; those values are replaced by flips that keep the length <= 144 MiB.
+                vals = [1] if quick else [1, 2, 8]
+            if p == 20:
+                # most significant byte of the footer's chunk count: parseTableIndex allocates chunks1*offsetSize bytes (up to 4 GiB,
+                # uint32 arithmetic) BEFORE newOnHeapTableIndex compares the buffer size with the count (~25 s a case; not a crash)
+                vals = [1] if quick else [1, 2, 4]
             for v in vals:
                 out.append(tcase(chunks, [{"op": "xor", "pos": -p, "v": v}], label="flip-index"))
         # data area flips
@@ -98,11 +110,11 @@ def table_cases(rng, tier):
         for i in range(c):
             for v in ([c, c + 1, 0xFFFFFFFF, (i + 1) % c] if quick else [c, c + 1, c + 2, 0xFFFFFFFF, 0x80000000, (i + 1) % c, 0]):
                 out.append(tcase(chunks, [{"op": "set", "pos": -isz + 12 * i + 8, "bytes": be32(v)}], label="ordinal"))
-            for v in ([0, 3, 4, 4194305] if quick else [0, 1, 2, 3, 4, 5, 255, 4194304, 4194305, 0x7FFFFFFF, 0xFFFFFFFF]):
+            for v in ([0, 3, 4, 4194305] if quick else [0, 1, 2, 3, 4, 5, 255, 4194304, 4194305, 0x08000000]):
                 out.append(tcase(chunks, [{"op": "set", "pos": -isz + 12 * c + 4 * i, "bytes": be32(v)}], label="length"))
-        if not quick:
-            for i in range(c):
-                out.append(tcase(chunks, [{"op": "set", "pos": -isz + 12 * c + 4 * i, "bytes": be32(0x90000000)}], label="length"))
+        if not quick and c == 2:
+            # one probe of a 4 GiB length (slow: see above)
+            out.append(tcase(chunks, [{"op": "set", "pos": -isz + 12 * c, "bytes": be32(0xFFFFFFFF)}], label="length"))
         # all ordinals equal to count (garbage entry read through the capacity of the slices)
         out.append(tcase(chunks, [{"op": "set", "pos": -isz + 12 * i + 8, "bytes": be32(c)} for i in range(c)], label="ordinal"))
         out.append(tcase(chunks, [{"op": "set", "pos": -isz + 12 * i + 8, "bytes": be32(c + 7)} for i in range(c)], label="ordinal"))
@@ -233,7 +245,53 @@ def manifest_cases(rng, tier):
     return out
 
 
+REG_CHUNKS = [[1, 2, 3, 4, 5], [9, 9, 9, 9, 9, 9, 9, 9, 10], [7, 7]]      # the file of Proofs.w_file (isz = 104)
+
+
+def regression_cases():
+    """The witnesses of the repaired findings; run first on every run (tier and seed independent)."""
+    out = []
+    def t(muts, reg):
+        c = tcase(REG_CHUNKS, muts, label="regression")
+        c["reg"] = reg
+        out.append(c)
+    for v in (2, 0, 3):
+        t([{"op": "set", "pos": -68, "bytes": be32(v)}], "length-lt-checksum-size")
+    t([{"op": "set", "pos": -68 + 4, "bytes": be32(0)}, {"op": "set", "pos": -68 + 8, "bytes": be32(1)}], "length-lt-checksum-size")
+    t([{"op": "set", "pos": -104 + 20, "bytes": be32(9)}], "ordinal-ge-count")
+    t([{"op": "set", "pos": -104 + 12 * i + 8, "bytes": be32(9)} for i in range(3)], "ordinal-ge-count")
+    t([{"op": "set", "pos": -104 + 12 * i + 8, "bytes": be32(3)} for i in range(3)], "ordinal-ge-count")
+    t([{"op": "set", "pos": -104 + 12 * i + 8, "bytes": be32(4)} for i in range(3)], "ordinal-ge-count")
+    t([{"op": "set", "pos": -68, "bytes": be32(5242882)}], "length-gt-iterate-buffer")
+    t([{"op": "set", "pos": -60, "bytes": be32(4194305)}], "length-gt-iterate-buffer")
+    base = [{"t": "chunk", "data": [1, 2, 3]}]
+    for body in ([2, 1], [2] + [7] * 19, [4, 1, 2, 3], [4] + [1] * 7, [1], [1, 2], [1, 2, 2] + [5] * 19):
+        for recs in (base + [{"t": "crcraw", "data": body}],
+                     [{"t": "crcraw", "data": body}],
+                     base + [{"t": "raw", "data": [0, 0, 0, 9, 1, 2, 3, 4, 5]}, {"t": "root", "data": [4] * 20}, {"t": "crcraw", "data": body}, {"t": "raw", "data": [0] * 48}]):
+            c = jcase(recs, [], "regression")
+            c["reg"] = "journal-short-field"
+            out.append(c)
+    import random as _r
+    for pos, v in ((44 + 0, 32), (44 + 31, 32), (44 + 5, 128), (44 + 10, 160)):
+        c = mcase(_r.Random(7), 1, [{"op": "xor", "pos": pos, "v": v}], "regression")
+        c["reg"] = "manifest-bad-root"
+        out.append(c)
+    for extra in ([], [{"op": "del", "pos": 77, "n": 33}]):
+        c = mcase(_r.Random(7), 1, [{"op": "set", "pos": 0, "bytes": [52]}] + extra + [{"op": "set", "pos": 50, "bytes": [90]}], "regression")
+        c["reg"] = "manifest-bad-root"
+        out.append(c)
+    for c in out:
+        if c["k"] == "table":
+            c["gm"] = True
+    return out
+
+
 def gen_cases(rng, tier):
+    return regression_cases() + gen_cases_random(rng, tier)
+
+
+def gen_cases_random(rng, tier):
     tc = table_cases(rng, tier)
     for i, c in enumerate(tc):
         # getMany runs on errgroup goroutines: a panic there costs a worker restart (~1 s); quick runs it on a third of the cases
@@ -318,40 +376,13 @@ def evidence(case, out):
 
 
 def attribute(case, out, kind, msg):
-    """The known-finding key a piece of evidence belongs to, or None."""
+    """The OPEN known-finding key a piece of evidence belongs to, or None.  Panics and crashes belong to none."""
     o = out.get("obs") or {}
-    k = case["k"]
-    if k == "table" and kind == "panic":
-        facts = index_facts(o)
-        if facts is None:
-            return None
-        lens, ords = facts
-        c = o["cnt"]
-        if all(x < c for x in ords) and any(l < 4 for l in lens) and (
-                "slice bounds out of range [1844674407370955" in msg                      # len(buff)-4 underflow in NewCompressedChunk
-                or ("expected true" in msg and any(l == 0 for l in lens))                   # zero-length read: stats histogram asserts v > 0
-                or (msg.startswith("getmany:") and re.search(r"slice bounds out of range \[:\d+\] with capacity", msg))):  # batch shorter than a member
-            return KEY_LEN
-        if any(x >= c for x in ords) and ("with capacity %d" % (12 * c + 20) in msg or "with capacity 4194304" in msg
-                                           or "slice bounds out of range [1844674407370955" in msg):
-            return KEY_ORD
-        if "with capacity 4194304" in msg and any(l > 4194304 for l in lens):
-            return KEY_BUF
-        return None
-    if k == "table" and kind == "misread":
+    if case["k"] == "table" and kind == "misread":
         if any(m["op"] in ("swaprec", "cprec") for m in case["muts"]):
             return KEY_SWAP
         if o.get("iter") == "bad" and o.get("getmany") != "bad" and not any(r["get"] == "bad" for r in o["res"]):
             return KEY_ITER                   # only the iteration mislabels: it takes the address from the (unchecksummed) index
-        return None
-    if k == "journal" and kind == "panic":
-        if re.search(r"slice bounds out of range \[20:\d+\]|index out of range \[7\] with length", msg):
-            return KEY_JREC
-        return None
-    if k == "manifest" and kind == "panic":
-        if "could not parse Hash" in msg:
-            return KEY_MROOT
-        return None
     return None
 
 
@@ -374,6 +405,8 @@ def classify(case, out):
     o = out.get("obs")
     k = case["k"]
     t = [k, "mut:" + (case.get("label") or "none")]
+    if case.get("reg"):
+        t.append("reg:" + case["reg"])
     if o is None or "crash" in o:
         return t + ["worker-crash"]
     if k == "table":
@@ -388,6 +421,8 @@ def classify(case, out):
             t.append("t-get-panic")
         if "panic" in hass:
             t.append("t-has-panic")
+        if "err" in hass:
+            t.append("t-has-err")
         if "absent" in gets[:len(case["chunks"])]:
             t.append("t-absent")
         if "bad" in gets:
